@@ -6,6 +6,9 @@ use serde_json::{json, Value};
 use std::io::{BufRead, Write};
 use std::panic::{catch_unwind, AssertUnwindSafe};
 
+#[path = "/verif/probe/tables.rs"]
+mod tables;
+
 fn panic_msg(e: Box<dyn std::any::Any + Send>) -> String {
 	if let Some(s) = e.downcast_ref::<&str>() {
 		s.to_string()
@@ -29,8 +32,16 @@ fn dispatch(rt: &tokio::runtime::Runtime, input: &Value) -> Value {
 	match op {
 		"ping" => json!({"pong": true}),
 		"period" => op_period(input),
+		"tables" => tables::tables(input),
 		"rl_new" => crate::endpoint::verif::rl_new(input),
 		"rl_case" => crate::endpoint::verif::rl_case(input),
+		"schedule" => rt.block_on(crate::certificate::verif::schedule(input)),
+		"lookup" => crate::certificate::verif::lookup(input),
+		"ident" => crate::certificate::verif::ident(input),
+		"idna" => match acme_common::to_idna(input["s"].as_str().unwrap_or("")) {
+			Ok(s) => json!({"ok": s}),
+			Err(_) => json!({"rejected": true}),
+		},
 		"config_load" => rt.block_on(crate::main_event_loop::verif::config_load(input)),
 		"first_request" => rt.block_on(crate::main_event_loop::verif::first_request(input)),
 		"rl_run" => rt.block_on(crate::endpoint::verif::rl_run(input)),
